@@ -280,13 +280,13 @@ pub fn gen_jumbo(seed: u64) -> (PnmScenario, &'static str, Option<String>) {
         }
         return (PnmScenario { work: PnmWork::Foreign(f), writer: WriterCfg::plain(), disk: vec![], reader, via_path: false }, "search:jumbo", None);
     }
-    let (bw, bh) = match rng.below(4) {
+    let (bw, bh) = match rng.below(5) {
         // a dimension beyond 16 bits
         0 => *rng.pick(&[(65_537u32, 1u32), (1, 65_540), (70_001, 2), (3, 66_000), (65_536, 2)]),
         // rows wider than any plausible row buffer, more than one of them
-        1 => (rng.range(4097, 70_000) as u32, rng.range(2, 4) as u32),
+        1 | 2 => (rng.range(4097, 70_000) as u32, rng.range(2, 4) as u32),
         // many pixels: 2^18 .. 2^20 and a little beyond
-        2 => (rng.range(500, 1100) as u32, rng.range(500, 1100) as u32),
+        3 => (rng.range(500, 1100) as u32, rng.range(500, 1100) as u32),
         _ => *rng.pick(&[(1025u32, 1024u32), (300, 300), (4096, 3), (8192, 2), (256, 256), (1024, 1024), (2400, 2400)]),
     };
     let li = LibImage { bw, bh, pixels: Pix::Seeded(rng.u64()), view: if rng.chance(1, 2) { View::Ref } else { View::Slice(RectU { x: 0, y: 0, w: bw, h: bh }) } };
